@@ -585,7 +585,11 @@ class Integer(Type):
     def set_restricted_to_range(self, minimum, maximum, has_extension_marker):
         self.has_extension_marker = has_extension_marker
 
-        if minimum != 'MIN':
+        if minimum == 'MIN' or has_extension_marker:
+            # No OER-visible lower bound (an extensible constraint is
+            # not OER-visible): signed variable length encoding.
+            self.signed = True
+        else:
             self.signed = (minimum < 0)
 
         if minimum == 'MIN' or maximum == 'MAX' or has_extension_marker:
